@@ -14,6 +14,7 @@ mod findings;
 mod human;
 mod infer;
 mod jets;
+mod merkle;
 mod policy;
 mod prog;
 mod redeem;
@@ -81,6 +82,7 @@ fn main() {
             "c06" => cdiff::run_c06(&toks[1..]),
             "dag" => dag::run(&toks[1..]),
             "human" => human::run(&toks[1..]),
+            "roots" => merkle::run(&toks[1..]),
             other => {
                 eprintln!("unknown command {}", other);
                 std::process::exit(2);
